@@ -145,7 +145,9 @@ def verdictI (line : String) : String :=
       -- them in place before their SetValues; the model's values are immutable, so a disagreement on
       -- such a pair is outside the modelled domain (the serial-order verdict below still applies)
       let inPlace (c : List Bytes) := [b "hset", b "hsetnx", b "hdel", b "hincrby", b "hincrbyfloat", b "lset"].contains (toLower (c.headD []))
-      let modelV := if modelV.startsWith "DIFF" && shareArg cmdA cmdB && (inPlace cmdA || inPlace cmdB)
+      -- (FLUSHDB / FLUSHALL read the accounted size of every stored value since the flush-accounting repair: they share every key)
+      let isFlush (c : List Bytes) := [b "flushdb", b "flushall"].contains (toLower (c.headD []))
+      let modelV := if modelV.startsWith "DIFF" && (shareArg cmdA cmdB || isFlush cmdA || isFlush cmdB) && (inPlace cmdA || inPlace cmdB)
                     then "SKIP in-place-mutation-of-a-shared-map-or-slice-between-keyspace-steps" else modelV
       -- the property: replies and final dataset equal those of one of the two serial orders (same build)
       let eqSerial (x : Serial) : Bool := x.a == ra && x.b == rb && datasetEq now x.post post
